@@ -240,7 +240,7 @@ func entryScenario(x *explore.X, depth int, viaMartian bool) {
 	if viaMartian {
 		cut = []int{0, 3}[x.ChooseFree("first-flight-segmentation", 2)]
 	} else {
-		cut = x.ChooseFree("first-flight-segmentation", 5)
+		cut = x.ChooseFree("first-flight-segmentation", 6) // 5: as 0, and the 24 octets of the preface themselves arrive in two segments
 	}
 	var ss []http2.Setting
 	if iws >= 0 {
@@ -250,7 +250,15 @@ func entryScenario(x *explore.X, depth int, viaMartian bool) {
 		ss = append(ss, http2.Setting{ID: http2.SettingMaxFrameSize, Val: uint32(mfs)})
 	}
 	pieces := []func(){
-		func() { cw.Write(connectionPreface) },
+		func() {
+			if cut == 5 {
+				cw.Write(connectionPreface[:12])
+				synctest.Wait()
+				cw.Write(connectionPreface[12:])
+				return
+			}
+			cw.Write(connectionPreface)
+		},
 		func() { y.c.sendSettings(ss...) },
 		func() {
 			if connWU > 0 {
@@ -261,7 +269,7 @@ func entryScenario(x *explore.X, depth int, viaMartian bool) {
 	}
 	for i, p := range pieces {
 		switch cut {
-		case 0:
+		case 0, 5:
 			p()
 			synctest.Wait()
 		case 1:
